@@ -96,12 +96,19 @@ func (s *Store) AddMessage(message storage.Message) (id string, err error) {
 			}
 		}
 	})
-	// Messages evicted by the cap no longer count towards the size limit.
+	// Messages evicted by the cap no longer count towards the size limit, and listeners are
+	// told about them like about any other deletion.
 	for _, old := range evicted {
+		s.emitDeleted(old)
 		s.enforcerRemove(old)
 	}
 	s.enforcerDeliver(m)
 	return id, err
+}
+
+// emitDeleted tells listeners that m has left its mailbox.
+func (s *Store) emitDeleted(m *Message) {
+	s.extHost.Events.AfterMessageDeleted.Emit(message.MakeMetadata(m))
 }
 
 // GetMessage gets a mesage.
